@@ -28,7 +28,10 @@ MassSame(ev) == ev.massIn = <<>> \/ ev.massOut = <<>> \/ FWithin(ev.massIn, ev.m
 (* massIn / massOut = real mass of argument and result (<<>> when the mass is not computable)                       *)
 (* ev.results = <<[via |-> "copy" | "inplace" | "str", ann |-> projection]>>: the same operation through the copy  *)
 (* form, the inplace=True form and the module-level string function must all give the specified result         *)
+(* via = "ARG": the annotation object that was handed to the string-level function, as it is afterwards (= ev.A)    *)
 Both(ev, F(_)) == UNION { IF ev.results[r].via = "str_unparsable" THEN {"str_result_unparsable"}
+                          ELSE IF ev.results[r].via = "ARG"
+                               THEN Pre("argument_object_changed_", Diff(ev.results[r].ann, ev.A))
                           ELSE Pre(ev.results[r].via \o "_", F(ev.results[r].ann)) : r \in 1..Len(ev.results) }
 
 ReverseFails(ev) ==
@@ -95,6 +98,8 @@ CombFails(ev) ==
           ELSE UNION { Pre("item_", Diff(ev.res[q], Wrap(ev.A, want[q]))) : q \in 1..Len(want) })
     \cup (IF ~ev.allParse THEN {"result_does_not_reparse"} ELSE {})
     \cup (IF ev.again # ev.res THEN {"second_expansion_of_the_same_object_differs"} ELSE {})
+    \cup (IF ev.siblings # ev.res THEN {"editing_one_result_changed_the_others"} ELSE {})
+    \cup Pre("source_changed_by_editing_a_result_", Diff(ev.argAfter, ev.A))
 
 (* -------------------------------- C20 ---------------------------------- *)
 ModDictFails(ev) == IF ev.res # Write(ev.A, FALSE) THEN {"add_mods_of_get_mods_differs"} ELSE {}
